@@ -416,11 +416,13 @@ def s_units_population(ctx):
         u.mismatches.append(dict(case=cases[i], note="a population member's evaluate differs from the model (or the member recorded another position than the one evaluated)"))
 
 
-POP_ITER = ["ParticleSwarmOptimizer", "SpiralOptimization", "DifferentialEvolutionOptimizer", "EvolutionStrategyOptimizer"]
+POP_ITER = ["ParticleSwarmOptimizer", "SpiralOptimization", "DifferentialEvolutionOptimizer", "EvolutionStrategyOptimizer", "GeneticAlgorithmOptimizer", "ParallelTemperingOptimizer", "PatternSearch"]
 POP_HDR = ("Require Import Converter CoreOpt Pop.\n"
            "Definition pe := list_eqb Z.eqb.\n"
            "Definition it_ok (r : res (pos * tape * Z)) (p : pos) (n : option Z) : bool := match r with Ok (q, [], m) => pe q p && "
-           "match n with Some k => m =? k | None => true end | _ => false end.\n")
+           "match n with Some k => m =? k | None => true end | _ => false end.\n"
+           "Definition ga_ok (r : res (pos * tape * Z * list pos)) (p : pos) (n : option Z) (q : list pos) : bool := match r with Ok (q0, [], m, qs) => pe q0 p && "
+           "match n with Some k => m =? k | None => true end && list_eqb pe qs q | _ => false end.\n")
 
 
 def _rot(vec):
@@ -443,16 +445,16 @@ def s_units_pop_iterate(ctx):
     """every iteration step of ParticleSwarm / Spiral / DifferentialEvolution runs against theories/Pop.v: from the observed
     pre-state, the logged draws and the float vector recomputed by the harness (the model's oracle), the model must return
     the observed position, consume every draw and make the same number of constraint evaluations"""
-    u = ctx.unit("S:iterate (particle swarm, spiral, differential evolution, evolution strategy)", "S",
+    u = ctx.unit("S:iterate (particle swarm, spiral, differential evolution, evolution strategy, genetic algorithm, parallel tempering, pattern search)", "S",
                  "every iteration step of real runs (populations 4-6, coupled constraints -- parity / band / half-space -- to "
                  "force the fallback paths, rand_rest_p up to 0.5, varied hyper-parameters): the model's pso_iterate / "
-                 "spiral_iterate / de_iterate / es_iterate (population order after the unstable argsort observed) with the logged draws and the harness-recomputed float vector (new velocity, spiral "
+                 "spiral_iterate / de_iterate / es_iterate / ga_iterate (population order after the unstable argsort observed; GA's offspring queue before / after) with the logged draws and the harness-recomputed float vector (new velocity, spiral "
                  "point, mutant) must return the observed position, leave no draw and count the same constraint evaluations; "
                  "non-trivial = the first candidate was infeasible or a random restart happened; distinct by (optimizer, seed, step)")
     from props import c02
     rng = ctx.sub_rng("popit")
     lits, cases = [], []
-    n = 18 if ctx.quick else 150
+    n = 24 if ctx.quick else 180
     specs = c02.coupled_specs(ctx, 4 * n)
     specs = [sp_ for sp_ in specs if sp_["name"] in POP_ITER][:n]
     for spec in specs:
@@ -476,10 +478,12 @@ def s_units_pop_iterate(ctx):
         sp, cl, vs = space_lits(spec["space"], spec.get("feasible"))
         nd = len(spec["space"])
         prev = None
+        prev_extra = {}
         for st in out["steps"]:
             cur = st["states"]
             if st["is_init"] or prev is None:
                 prev = cur
+                prev_extra = st
                 continue
             split = st["rng_split"] if st["rng_split"] is not None else len(st["rng"])
             r_it = list(st["rng"][:split])
@@ -523,6 +527,75 @@ def s_units_pop_iterate(ctx):
                     for e in rest:
                         tape += draw_lit(e[0], e[1], e[3])
                     call = "spiral_iterate %s %s 3000 (%s, %s) [%s]" % (sp, cl, cz(rrp[0]), cz(rrp[1]), "; ".join(tape))
+                elif name == "GeneticAlgorithmOptimizer":
+                    order = st.get("pop_sorted")
+                    if P > 1 and (order is None or len(order) != P):
+                        raise ValueError("pop_sorted was not observable after the step: %r" % (order,))
+                    news = [prev["member%d" % j]["pos_new"] for j in (order if P > 1 else [0])]
+                    if any(c_ is None for c_ in news):
+                        raise ValueError("an individual has no pos_new yet")
+                    queue_pre = prev_extra.get("offspring_l")
+                    queue_post = st.get("offspring_l")
+                    if queue_pre is None or queue_post is None:
+                        raise ValueError("offspring_l was not observable")
+                    mut = dyadic(float(opt.mutation_rate))
+                    tape = []
+                    for e in draws:
+                        tape += draw_lit(e[0], e[1], e[3])
+                    rrp = dyadic(float(members[0].rand_rest_p))
+                    call = "ga_iterate %s %s 3000 (%s, %s) (%s, %s) %s %s %s %s [%s]" % (
+                        sp, cl, cz(rrp[0]), cz(rrp[1]), cz(mut[0]), cz(mut[1]), cz(int(opt.n_parents)), cnat(int(opt.offspring)),
+                        clist(news, clist), clist(queue_pre, clist), "; ".join(tape))
+                    lits.append("(ga_ok (%s) %s %s %s)" % (call, clist(st["pos"]), copt(ncon), clist(queue_post, clist)))
+                    cases.append(dict(optimizer=name, spec=dunit.spec_brief(spec), step=(st["call"], st["k"]), pos=st["pos"], ncon=ncon,
+                                      queue_pre=queue_pre, queue_post=queue_post, draws=jsonable(draws)))
+                    u.count((name, spec["seed"], st["call"], st["k"]), nontrivial=(ncon or 0) > 1 or len(draws) > 3)
+                    u.bump(name)
+                    prev = cur
+                    prev_extra = st
+                    continue
+                elif name == "PatternSearch":
+                    queue_pre = prev_extra.get("pattern_pos_l")
+                    queue_post = st.get("pattern_pos_l")
+                    if queue_pre is None or queue_post is None:
+                        raise ValueError("pattern_pos_l was not observable")
+                    if prev_extra.get("is_init"):
+                        # finish_initialization runs generate_pattern between the last init step and the first iterate: the list
+                        # the iterate pops from is the observed remainder plus the popped head (checked: head in box by the model)
+                        queue_pre = None
+                    tape = []
+                    for e in draws:
+                        tape += draw_lit(e[0], e[1], e[3])
+                    rrp = dyadic(float(opt.rand_rest_p))
+                    if queue_pre is None:
+                        prev = cur
+                        prev_extra = st
+                        continue
+                    # evaluate() of the previous step may have regenerated the list after the snapshot? no: the snapshot is taken after
+                    # the whole step (iterate + evaluate), so queue_pre is what this iterate sees
+                    call = "pattern_iterate %s %s 3000 (%s, %s) %s [%s]" % (sp, cl, cz(rrp[0]), cz(rrp[1]), clist(queue_pre, clist), "; ".join(tape))
+                    # queue_post is observed after this step's evaluate, which may regenerate the list: compare the remainder only when it
+                    # was not regenerated (evaluate regenerates at nth_trial % (2 n_positions_) == 0 or on an empty list)
+                    n2 = int(opt.n_positions_ * 2)
+                    regenerated = (cur["self"]["nth_trial"] - 1) % n2 == 0 or len(queue_pre) <= 1 or cur["self"]["n_valid"] == 0
+                    if regenerated or prev["self"]["n_valid"] == 0 and False:
+                        # (the step's constraint calls then include those of generate_pattern's conv2pos -> move_random: not compared)
+                        lits.append("(match %s with Ok (q0, [], m, _) => pe q0 %s | _ => false end)" % (call, clist(st["pos"])))
+                    else:
+                        lits.append("(ga_ok (%s) %s %s %s)" % (call, clist(st["pos"]), copt(ncon), clist(queue_post, clist)))
+                    cases.append(dict(optimizer=name, spec=dunit.spec_brief(spec), step=(st["call"], st["k"]), pos=st["pos"], ncon=ncon,
+                                      queue_pre=queue_pre, queue_post=queue_post, regenerated=regenerated, draws=jsonable(draws)))
+                    u.count((name, spec["seed"], st["call"], st["k"]), nontrivial=(ncon or 0) > 1)
+                    u.bump(name)
+                    prev = cur
+                    prev_extra = st
+                    continue
+                elif name == "ParallelTemperingOptimizer":
+                    # iterate = the current system's (a simulated-annealing optimizer's) hill-climbing iterate
+                    tape = []
+                    for e in draws:
+                        tape += draw_lit(e[0], e[1], e[3])
+                    call = "hill_iterate %s %s 3000 (%s, %s) [%s]" % (sp, cl, cz(rrp[0]), cz(rrp[1]), "; ".join(tape))
                 elif name == "EvolutionStrategyOptimizer":
                     order = st.get("pop_sorted")
                     if P > 1 and (order is None or len(order) != P):
@@ -555,6 +628,7 @@ def s_units_pop_iterate(ctx):
                 u.mismatches.append(dict(case=dict(optimizer=name, spec=dunit.spec_brief(spec), step=(st["call"], st["k"])),
                                          note="cannot build the model's input from the observed step: %s: %s" % (type(e).__name__, e)))
                 prev = cur
+                prev_extra = st
                 continue
             lits.append("(it_ok (%s) %s %s)" % (call, clist(st["pos"]), copt(ncon)))
             cases.append(dict(optimizer=name, spec=dunit.spec_brief(spec), step=(st["call"], st["k"]), member=who, pos=st["pos"], ncon=ncon,
@@ -562,6 +636,7 @@ def s_units_pop_iterate(ctx):
             u.count((name, spec["seed"], st["call"], st["k"]), nontrivial=(ncon or 0) > 1 or len(draws) > (3 + nd))
             u.bump(name)
             prev = cur
+            prev_extra = st
     u.samples = cases[:3]
     failing, err = coq_eval_cases(u.name, POP_HDR, "bool", lits, "fun b => b", shard=60)
     u.error = err
